@@ -9,13 +9,16 @@ Line protocol of the C20 model (one s-expression in, one out).
   STATE = ((x n) ...)          variables not listed are 0
   STR   = atom, percent-encoded as in harness/common/sexp.py
 
-  (vcs COM PRE POST)        -> (ok ACOM (E ...) (STR ...) (wsCom wfCpre wfCpost allVCswfC))   annotated command, VCs, printed VCs, hypotheses of the theorems
+  (vcs COM PRE POST)        -> (ok ACOM (E ...) (STR ...) (wsCom&&okCom okEpre okEpost allVCsokE))   annotated command, VCs, printed VCs, hypotheses of the theorems
   (vcsh COM PRE POST)       -> (E ...)                        conditions of imp.vcg (no `== true` shortcut)
   (wf E)                    -> (wfC wfA tyC tyA)              each T | F
   (ws COM)                  -> T | F                          wsCom
   (pp E)                    -> STR
   (lexpp E)                 -> T | F        does `lex (pp E)` equal `toks E`
-  (ppcom COM)               -> (STR ...)                      lines of print_com
+  (ppcom COM)               -> STR                            the lines of print_com joined by newlines
+  (lex STR)                 -> (ok (TOK ...)) | err           TOK = (id x) | (num n) | (sym s)
+  (nameok x)                -> T | F
+  (lexcom COM)              -> (lexOKc  lex(ppCom c)==comToks c)   each T | F
   (parsecond STR)           -> (ok E) | err
   (parsecom STR)            -> (ok COM) | err
   (eval E STATE)            -> (int n) | (bool T|F) | none
@@ -136,7 +139,7 @@ def handle (line : String) : String :=
       let a := computeWp c [p] q
       let vcs := getVcs a
       toString (Sexp.list [.atom "ok", acomTo a, exprsTo vcs, .list (vcs.map fun v => .atom (enc (pp v))),
-        .list [Sexp.ofBool (wsCom c), Sexp.ofBool (wfC p), Sexp.ofBool (wfC q), Sexp.ofBool (vcs.all wfC)]])
+        .list [Sexp.ofBool (wsCom c && okCom c), Sexp.ofBool (okE p), Sexp.ofBool (okE q), Sexp.ofBool (vcs.all okE)]])
     | _, _, _ => "bad-op"
   | some (.list [.atom "vcsh", c, p, q]) =>
     match comOf c, exprOf p, exprOf q with
@@ -158,9 +161,21 @@ def handle (line : String) : String :=
     match exprOf e with
     | some e => toString (Sexp.ofBool (lex (pp e) == some (toks e)))
     | none => "bad-op"
+  | some (.list [.atom "lex", .atom s]) =>
+    match lex (dec s) with
+    | some ts => toString (Sexp.list [.atom "ok", .list (ts.map fun
+        | .id x => .list [.atom "id", .atom (enc x)]
+        | .num n => .list [.atom "num", Sexp.ofNat n]
+        | t => .list [.atom "sym", .atom (enc (String.ofList (tokChars t)))])])
+    | none => "err"
+  | some (.list [.atom "lexcom", c]) =>
+    match comOf c with
+    | some c => toString (Sexp.list [Sexp.ofBool (lexOKc c), Sexp.ofBool (lex (ppCom c) == some (comToks c))])
+    | none => "bad-op"
+  | some (.list [.atom "nameok", .atom x]) => toString (Sexp.ofBool (nameOK (dec x)))
   | some (.list [.atom "ppcom", c]) =>
     match comOf c with
-    | some c => toString (Sexp.list ((ppCom 0 c).map fun l => .atom (enc l)))
+    | some c => enc (ppCom c)
     | none => "bad-op"
   | some (.list [.atom "parsecond", .atom s]) =>
     match parseCond (dec s) with
